@@ -98,7 +98,7 @@ func refJSONString(body string, quote rune) (string, bool) {
 
 var c11StringUnits = []string{
 	"a", "é", "䑁", "😀", " ", "'", "$", ".", "`", "/", "*", "/*", "*/", "~>", ":=", "..", `\"`, `\\`, `\/`, `\b`, `\f`, `\n`, `\r`, `\t`,
-	`\u0041`, `\u00e9`, `\u0000`, `\uD83D\uDE00`, `\ud83d`, `\ude00`, `\ufffd`, `\uFFFF`, `\ud7ff`, `\ue000`, `\u12`, `\uZZZZ`, `\q`, `\`,
+	`\u0041`, `\u00e9`, `\u0000`, `\uD83D\uDE00`, `\ud83d`, `\ude00`, `\ufffd`, `\uFFFF`, `\ud7ff`, `\ue000`, `\u12`, `\u+041`, `\u-000`, `\u 041`, `\uZZZZ`, `\q`, `\`,
 }
 
 var reJSONNumber = regexp.MustCompile(`^-?(0|[1-9][0-9]*)(\.[0-9]+)?([eE][+-]?[0-9]+)?$`)
